@@ -79,14 +79,23 @@ def main():
                 fn = getattr(mod, op["name"])
                 before = [sys.getrefcount(x) for x in pos] + [sys.getrefcount(x) for x in kw.values()]
                 n_ok = n_exc = 0
-                for _ in range(op["n"]):
+                for _ in range(50):            # warm-up: caches, interned values, lazily created module state
                     try:
                         fn(*pos, **kw)
+                    except (TypeError, ValueError):
+                        pass
+                gc.collect()
+                blocks0 = sys.getallocatedblocks()
+                for _ in range(op["n"]):
+                    try:
+                        fn(*pos, **kw)            # the result is dropped at once
                         n_ok += 1
                     except (TypeError, ValueError):
                         n_exc += 1
+                gc.collect()
+                blocks1 = sys.getallocatedblocks()
                 after = [sys.getrefcount(x) for x in pos] + [sys.getrefcount(x) for x in kw.values()]
-                r = {"t": [[b - a for a, b in zip(before, after)], n_ok, n_exc]}
+                r = {"t": [[b - a for a, b in zip(before, after)], n_ok, n_exc, blocks1 - blocks0]}
                 print("OUT %d %s" % (k, json.dumps(r)), flush=True)
                 continue
             else:
